@@ -19,6 +19,8 @@ def subB (st : StructTable) : Nat → Ty → Ty → Bool
   | n+1, t, t' =>
     t == t' ||
     (t.mapDim == t'.mapDim && t.arrDim == t'.arrDim &&
+      (st.lookup t.base).isNone && (st.lookup t'.base).isNone) ||
+    (t.mapDim == t'.mapDim && t.arrDim == t'.arrDim &&
       match st.lookup t.base, st.lookup t'.base with
       | some _, some ps' =>
         ps'.all fun p' =>
